@@ -464,7 +464,17 @@ func (dm *DagModifier) modifyDag(n ipld.Node, offset uint64) (cid.Cid, error) {
 				return cid.Cid{}, err
 			}
 
-			node.Links()[i].Cid = k
+			// Install a new link instead of changing the existing one in
+			// place: ProtoNode.Copy shares the Link objects, so the node this
+			// modifier was created from (and every other copy of it) would
+			// otherwise silently point at the new child under its old CID.
+			links := node.Links()
+			lnk := *links[i]
+			lnk.Cid = k
+			links[i] = &lnk
+			if err := node.SetLinks(links); err != nil {
+				return cid.Cid{}, err
+			}
 
 			// Recache serialized node
 			_, err = node.EncodeProtobuf(true)
